@@ -1,5 +1,5 @@
 #!/usr/bin/env python3
-"""Creates scratch worktrees /tmp/seed8/<ID> and prompt files for a further round of independently seeded changes (each sub-agent gets the property text, its worktree and the list of triggers earlier rounds already used)."""
+"""Creates scratch worktrees /tmp/seed9/<ID> and prompt files for a further round of independently seeded changes (each sub-agent gets the property text, its worktree and the list of triggers earlier rounds already used)."""
 import json,glob,os,subprocess
 props={json.loads(l)['id']:json.loads(l) for l in open('/verif/properties.jsonl')}
 covered={}
@@ -23,7 +23,7 @@ YOUR TASK: produce TWO different small source changes (call them A and B) to the
   1. the library still compiles (`go build ./...`),
   2. the existing test suite still passes completely and reliably (`go test ./... -count=1` in the worktree, run it at least 3 times; all of it must pass every time with your change applied),
   3. the breakage needs something SPECIFIC to manifest — a particular unusual input, a multi-step sequence of operations, a particular combination of options, a crash/fault at a particular point, two cooperating code sites that each look fine alone, a particular interleaving — NOT something ordinary use would expose at once. Think of the kind of bug a careful code reviewer could miss. Do not special-case magic strings like `if name == "xyzzy"`; the change must look like plausible production code (a refactor, an optimisation, a cache, a "tidy-up", a new small feature).
-  4. A and B must break the property through different mechanisms, and — IMPORTANT — seven earlier rounds already covered the targets listed below. Pick DIFFERENT clauses of the statement, different functions, or different triggering conditions than any of these; prefer parts of the statement and of the quantifier that none of them touches, and code paths away from the centre (error paths, rarely used options, interactions between features, boundary sizes, state that survives between calls):
+  4. A and B must break the property through different mechanisms, and — IMPORTANT — eight earlier rounds already covered the targets listed below. Pick DIFFERENT clauses of the statement, different functions, or different triggering conditions than any of these; prefer parts of the statement and of the quantifier that none of them touches, and code paths away from the centre (error paths, rarely used options, interactions between features, boundary sizes, state that survives between calls):
 {covered}
 
 For EACH change also write a DEMONSTRATION: a Go test file (or small Go program) that PASSES on the unmodified library and FAILS with the change applied, and that shows the property being violated (not merely a changed internal detail).
@@ -45,10 +45,10 @@ Leave the worktree itself clean (git status shows only the untracked SEED direct
 Report briefly what A and B are when done, including for each the package directory for the demo and the -run pattern.
 '''
 for pid,p in props.items():
-    wt=f'/tmp/seed8/{pid}'
+    wt=f'/tmp/seed9/{pid}'
     if not os.path.exists(wt):
         subprocess.check_call(['git','-C','/repo','worktree','add','-q','--detach',wt,'HEAD'])
     cov='\n'.join('     - '+c for c in covered.get(pid,[]))
     q=p['quantifier']
-    open(f'/tmp/seed8/{pid}.prompt.txt','w').write(T.format(wt=wt,id=pid,title=p['title'],statement=p['statement'],quant=q['text'],files=', '.join(p['anchors']['files']),covered=cov))
+    open(f'/tmp/seed9/{pid}.prompt.txt','w').write(T.format(wt=wt,id=pid,title=p['title'],statement=p['statement'],quant=q['text'],files=', '.join(p['anchors']['files']),covered=cov))
 print('ok')
